@@ -751,4 +751,584 @@ theorem cell_frame_run {H σ} (h : Inv H σ) (ops : List Op) (i : Nat) (hi : i <
     obtain ⟨a, b⟩ := ih (inv_step h op) hi' ht'
     exact ⟨by simp only [run]; rw [a, e], b⟩
 
+/-! ### Value-level semantics: every object is an independent immutable VALUE -/
+
+/-- the value of an object: cells are trees; a slice is (type, remaining bits, remaining referenced trees); ... -/
+inductive Val where
+  | cell (t : Tree)
+  | slice (kind : Int) (bits : Bits) (refs : List Tree)
+  | builder (bits : Bits) (refs : List Tree)
+  | bits (bs : Bits)
+  | refs (ts : List Tree)
+
+/-- abstraction function: the value of object `i`, read off the heap -/
+def valOf (σ : State) (i : Nat) : Val :=
+  match (σ.obj i).tag with
+  | .cell => .cell (.mk (σ.obj i).kind (σ.bitsOf i) (vals σ (σ.refsOf i)))
+  | .slice => .slice (σ.obj i).kind (σ.bitsOf i) (vals σ (σ.refsOf i))
+  | .builder => .builder (σ.bitsOf i) (vals σ (σ.refsOf i))
+  | .ubits => .bits (σ.bitsOf i)
+  | .urefs => .refs (vals σ (σ.refsOf i))
+
+inductive OutVal where
+  | err | unit
+  | val (v : Val)
+  | bits (bs : Bits)
+  | hash (h : Bytes)
+
+def outVal (σ' : State) : Out → OutVal
+  | .err => .err
+  | .unit => .unit
+  | .obj i => .val (valOf σ' i)
+  | .bits b => .bits b
+  | .hash h => .hash h
+
+def Val.isCell : Val → Bool
+  | .cell _ => true
+  | _ => false
+def Val.tree : Val → Tree
+  | .cell t => t
+  | _ => noTree
+def Val.isBuilder : Val → Bool
+  | .builder _ _ => true
+  | _ => false
+
+/-- (type, bits, remaining refs) of a cell / slice / builder value -/
+def Val.content : Val → Option (Int × Bits × List Tree)
+  | .cell (.mk k b r) => some (k, b, r)
+  | .slice k b r => some (k, b, r)
+  | .builder b r => some (-1, b, r)
+  | _ => none
+
+/-- the `Cell` constructor on values: succeeds iff the tree is constructible (depth, exotic layout, ...) -/
+def mkCellV (H : Bytes → Bytes) (k : Int) (b : Bits) (ts : List Tree) : OutVal :=
+  if (Cell.info H (.mk k b ts)).isSome then .val (.cell (.mk k b ts)) else .err
+
+/-- THE SPECIFICATION: each API call as a pure function of the VALUES of its arguments (`v` is consulted at the
+call's argument objects only - `sem_congr`).  Result value, and the new value of `self` when the call mutates it. -/
+def sem (H : Bytes → Bytes) (v : Nat → Val) : Op → OutVal × Option Val
+  | .newBits bs => (.val (.bits bs), none)
+  | .newRefs cs =>
+    (if cs.all (fun j => (v j).isCell) then .val (.refs (cs.map fun j => (v j).tree)) else .err, none)
+  | .cellCtor ub ur kind =>
+    (match v ub, v ur with
+     | .bits b, .refs ts => mkCellV H kind b ts
+     | _, _ => .err, none)
+  | .cellFresh bs cs kind =>
+    (if cs.all (fun j => (v j).isCell) then mkCellV H kind bs (cs.map fun j => (v j).tree) else .err, none)
+  | .sliceFresh bs cs kind =>
+    (if cs.all (fun j => (v j).isCell) then .val (.slice kind bs (cs.map fun j => (v j).tree)) else .err, none)
+  | .builderNew => (.val (.builder [] []), none)
+  | .derive src dst =>
+    (match (v src).content with
+     | none => .err
+     | some (k, b, r) =>
+       match dst with
+       | .cell => mkCellV H k b r
+       | .slice => .val (.slice k b r)
+       | .builder =>
+         if (v src).isBuilder || k != -1 || r.length > 4 || b.length > 1023 then .err else .val (.builder b r), none)
+  | .dropBits s n ret =>
+    match v s with
+    | .slice k b r =>
+      if n > b.length then (.err, none)
+      else (if ret then .val (.bits (b.take n)) else .bits (b.take n), some (.slice k (b.drop n) r))
+    | _ => (.err, none)
+  | .peekBits s n =>
+    (match v s with
+     | .slice _ b _ => .val (.bits (b.take n))
+     | _ => .err, none)
+  | .loadRef s =>
+    match v s with
+    | .slice k b (t :: r) => (.val (.cell t), some (.slice k b r))
+    | _ => (.err, none)
+  | .storeBits b bs =>
+    match v b with
+    | .builder bb r => if bb.length + bs.length > 1023 then (.err, none) else (.unit, some (.builder (bb ++ bs) r))
+    | _ => (.err, none)
+  | .storeFrom b src =>
+    match v b with
+    | .builder bb r =>
+      (match v src with
+       | .bits sb => if bb.length + sb.length > 1023 then (.err, none) else (.unit, some (.builder (bb ++ sb) r))
+       | .cell (.mk _ sb sr) =>
+         if r.length + sr.length > 4 then (.err, none) else if bb.length + sb.length > 1023 then (.err, none)
+         else (.unit, some (.builder (bb ++ sb) (r ++ sr)))
+       | .slice _ sb sr =>
+         if r.length + sr.length > 4 then (.err, none) else if bb.length + sb.length > 1023 then (.err, none)
+         else (.unit, some (.builder (bb ++ sb) (r ++ sr)))
+       | _ => (.err, none))
+    | _ => (.err, none)
+  | .storeRef b c =>
+    match v b, v c with
+    | .builder bb r, .cell t => if r.length ≥ 4 then (.err, none) else (.unit, some (.builder bb (r ++ [t])))
+    | _, _ => (.err, none)
+  | .observe c =>
+    (match v c with
+     | .cell t => (match Cell.info H t with
+                   | some i => .hash i.hash
+                   | none => .err)
+     | _ => .err, none)
+
+/-- all object ids an operation mentions -/
+def opIds : Op → List Nat
+  | .newBits _ => []
+  | .newRefs cs => cs
+  | .cellCtor ub ur _ => [ub, ur]
+  | .cellFresh _ cs _ => cs
+  | .sliceFresh _ cs _ => cs
+  | .builderNew => []
+  | .derive src _ => [src]
+  | .dropBits s _ _ => [s]
+  | .peekBits s _ => [s]
+  | .loadRef s => [s]
+  | .storeBits b _ => [b]
+  | .storeFrom b src => [b, src]
+  | .storeRef b c => [b, c]
+  | .observe c => [c]
+
+/-- the same call with its argument objects renamed -/
+def renameOp (ρ : Nat → Nat) : Op → Op
+  | .newBits bs => .newBits bs
+  | .newRefs cs => .newRefs (cs.map ρ)
+  | .cellCtor ub ur k => .cellCtor (ρ ub) (ρ ur) k
+  | .cellFresh bs cs k => .cellFresh bs (cs.map ρ) k
+  | .sliceFresh bs cs k => .sliceFresh bs (cs.map ρ) k
+  | .builderNew => .builderNew
+  | .derive src dst => .derive (ρ src) dst
+  | .dropBits s n r => .dropBits (ρ s) n r
+  | .peekBits s n => .peekBits (ρ s) n
+  | .loadRef s => .loadRef (ρ s)
+  | .storeBits b bs => .storeBits (ρ b) bs
+  | .storeFrom b src => .storeFrom (ρ b) (ρ src)
+  | .storeRef b c => .storeRef (ρ b) (ρ c)
+  | .observe c => .observe (ρ c)
+
+theorem all_congr {v1 v2 : Nat → Val} {cs : List Nat} (h : ∀ i ∈ cs, v1 i = v2 i) :
+    cs.all (fun j => (v1 j).isCell) = cs.all (fun j => (v2 j).isCell) := by
+  induction cs with
+  | nil => rfl
+  | cons a l ih => simp only [List.all_cons]; rw [h a (by simp), ih (fun i hi => h i (by simp [hi]))]
+
+theorem map_tree_congr {v1 v2 : Nat → Val} {cs : List Nat} (h : ∀ i ∈ cs, v1 i = v2 i) :
+    (cs.map fun j => (v1 j).tree) = cs.map fun j => (v2 j).tree :=
+  List.map_congr_left (fun i hi => by rw [h i hi])
+
+/-- `sem` reads `v` at the call's arguments only -/
+theorem sem_congr (H) (v1 v2 : Nat → Val) (op : Op) (h : ∀ i ∈ opIds op, v1 i = v2 i) : sem H v1 op = sem H v2 op := by
+  cases op <;> simp only [opIds, List.mem_cons, List.mem_singleton, List.not_mem_nil, or_false, forall_eq_or_imp, forall_eq] at h <;>
+    simp only [sem]
+  case newRefs cs => rw [all_congr h, map_tree_congr h]
+  case cellCtor => rw [h.1, h.2]
+  case cellFresh cs k => rw [all_congr h, map_tree_congr h]
+  case sliceFresh cs k => rw [all_congr h, map_tree_congr h]
+  case derive => rw [h]
+  case dropBits => rw [h]
+  case peekBits => rw [h]
+  case loadRef => rw [h]
+  case storeBits => rw [h]
+  case storeFrom => rw [h.1, h.2]
+  case storeRef => rw [h.1, h.2]
+  case observe => rw [h]
+
+theorem sem_rename (H) (v : Nat → Val) (ρ : Nat → Nat) (op : Op) : sem H v (renameOp ρ op) = sem H (v ∘ ρ) op := by
+  cases op <;> simp [sem, renameOp, List.all_map, Function.comp_def]
+
+/-! ### Refinement: the heap transition computes `sem` on values and touches no other object's value -/
+
+theorem val_frame {σ σ'} {recv : Option Nat} (f : Frame σ σ' recv) (j : Nat) (hj : j < σ.nObj) :
+    (σ'.obj j).val = (σ.obj j).val := by
+  by_cases e : recv = some j
+  · rw [f.robj j e]
+  · rw [f.obj j hj e]
+
+theorem vals_frame {σ σ'} {recv : Option Nat} (f : Frame σ σ' recv) {l : List Nat} (hl : CellsAt σ l) :
+    vals σ' l = vals σ l :=
+  vals_congr (fun j hj => val_frame f j (hl j hj).1)
+
+/-- ISOLATION: a transition does not change the value of any object other than its `self` -/
+theorem valOf_frame {H σ σ'} {recv : Option Nat} (h : Inv H σ) (f : Frame σ σ' recv) (i : Nat) (hi : i < σ.nObj)
+    (hne : recv ≠ some i) : valOf σ' i = valOf σ i := by
+  obtain ⟨a, b, c⟩ := frame_other h f i hi hne
+  have hv : (σ.obj i).tag.hasRefs = true →
+      vals σ' (List.drop (σ.obj i).off (σ.refBuf (σ.obj i).refsId)) = vals σ (List.drop (σ.obj i).off (σ.refBuf (σ.obj i).refsId)) :=
+    fun hr => vals_frame f (cellsAt_refsOf h hi hr)
+  unfold valOf State.bitsOf State.refsOf
+  rw [a]
+  cases ht : (σ.obj i).tag <;> simp only
+  · rw [b (by simp [ht, Tag.hasBits]), c (by simp [ht, Tag.hasRefs]), hv (by simp [ht, Tag.hasRefs])]
+  · rw [b (by simp [ht, Tag.hasBits]), c (by simp [ht, Tag.hasRefs]), hv (by simp [ht, Tag.hasRefs])]
+  · rw [b (by simp [ht, Tag.hasBits]), c (by simp [ht, Tag.hasRefs]), hv (by simp [ht, Tag.hasRefs])]
+  · rw [b (by simp [ht, Tag.hasBits])]
+  · rw [c (by simp [ht, Tag.hasRefs]), hv (by simp [ht, Tag.hasRefs])]
+
+theorem valOf_cell {H σ} (h : Inv H σ) {i : Nat} (hi : i < σ.nObj) (ht : (σ.obj i).tag = .cell) :
+    valOf σ i = .cell (σ.obj i).val ∧ (σ.obj i).val = .mk (σ.obj i).kind (σ.bitsOf i) (vals σ (σ.refsOf i)) := by
+  have c := h.coh.coh i hi ht
+  have o := h.wf.off0 i hi (by simp [ht])
+  have e : σ.refsOf i = σ.refBuf (σ.obj i).refsId := by simp [State.refsOf, o]
+  refine ⟨?_, ?_⟩
+  · simp only [valOf, ht, State.bitsOf, e]; rw [c]
+  · rw [e]; exact c
+
+theorem isCell_valOf (σ : State) (i : Nat) : (valOf σ i).isCell = decide ((σ.obj i).tag = .cell) := by
+  unfold valOf; cases (σ.obj i).tag <;> simp [Val.isCell]
+
+theorem all_isCell {σ : State} {cs : List Nat} (hcs : ∀ i ∈ cs, i < σ.nObj) :
+    cs.all (fun j => (valOf σ j).isCell) = allCells σ cs := by
+  unfold allCells
+  induction cs with
+  | nil => rfl
+  | cons a l ih =>
+    simp only [List.all_cons]
+    rw [ih (fun i hi => hcs i (by simp [hi])), isCell_valOf]
+    simp [State.has, hcs a (by simp)]
+
+theorem trees_vals {H σ} (h : Inv H σ) {cs : List Nat} (hcs : CellsAt σ cs) :
+    (cs.map fun j => (valOf σ j).tree) = vals σ cs := by
+  unfold vals
+  apply List.map_congr_left
+  intro j hj
+  rw [(valOf_cell h (hcs j hj).1 (hcs j hj).2).1]; rfl
+
+/-- value of the object created by `freshObj` -/
+theorem valOf_fresh {σ : State} (o : ObjRec) (bits : Bits) (refs : List Nat) (hl : CellsAt σ refs) :
+    valOf (freshObj σ o bits refs).1 σ.nObj =
+      match o.tag with
+      | .cell => .cell (.mk o.kind bits (vals σ (refs.drop o.off)))
+      | .slice => .slice o.kind bits (vals σ (refs.drop o.off))
+      | .builder => .builder bits (vals σ (refs.drop o.off))
+      | .ubits => .bits bits
+      | .urefs => .refs (vals σ (refs.drop o.off)) := by
+  have hv : ∀ o' : ObjRec, vals (((σ.allocB bits).allocR refs).push o') (refs.drop o.off) = vals σ (refs.drop o.off) := by
+    intro o'
+    apply vals_congr; intro j hj
+    have := (hl j (List.mem_of_mem_drop hj)).1
+    have e : j ≠ σ.nObj := by omega
+    simp [e]
+  unfold valOf State.bitsOf State.refsOf
+  simp only [freshObj]
+  simp only [push_obj, push_bitBuf, push_refBuf, allocR_bitBuf, allocR_refBuf, allocB_bitBuf, allocB_refBuf,
+    allocB_nRef, allocR_nObj, allocB_nObj, if_true]
+  cases o.tag <;> simp only [hv]
+
+theorem mkCellV_eq {H σ} (h : Inv H σ) {bI rI : Nat} {kind : Int} {bits : Bits} {refs : List Nat} (hl : CellsAt σ refs) :
+    mkCellV H kind bits (vals σ refs) =
+      match mkCellRec H σ bI rI kind bits refs with
+      | some _ => .val (.cell (.mk kind bits (vals σ refs)))
+      | none => .err := by
+  unfold mkCellV
+  cases e : mkCellRec H σ bI rI kind bits refs with
+  | none => simp [mkCellRec_none h.coh hl e]
+  | some c =>
+    obtain ⟨_, _, _, _, _, e6, e7⟩ := mkCellRec_some h.coh hl e
+    rw [e6] at e7; simp [e7]
+
+theorem content_valOf {H σ} (h : Inv H σ) {i : Nat} (hi : i < σ.nObj) :
+    (valOf σ i).content =
+      if σ.has i .cell || σ.has i .slice || σ.has i .builder then some ((σ.obj i).kind, σ.bitsOf i, vals σ (σ.refsOf i))
+      else none := by
+  have bk := h.wf.bk i hi
+  unfold valOf
+  cases ht : (σ.obj i).tag <;> simp [Val.content, State.has, hi, ht]
+  exact (bk ht).symm
+
+theorem isBuilder_valOf (σ : State) {i : Nat} (hi : i < σ.nObj) : (valOf σ i).isBuilder = σ.has i .builder := by
+  unfold valOf; cases ht : (σ.obj i).tag <;> simp [Val.isBuilder, State.has, hi, ht]
+
+/-- what `step_sem` establishes for one transition -/
+structure Refines (H : Bytes → Bytes) (σ : State) (op : Op) : Prop where
+  out : outVal (step H σ op).1 (step H σ op).2 = (sem H (valOf σ) op).1
+  recv : ∀ w, (sem H (valOf σ) op).2 = some w → ∃ r, recvOf op = some r ∧ r < σ.nObj ∧ valOf (step H σ op).1 r = w
+  same : (sem H (valOf σ) op).2 = none → recvOf op = none ∨ (step H σ op).1 = σ
+
+theorem Refines_iff {H σ op} : Refines H σ op ↔
+    (outVal (step H σ op).1 (step H σ op).2 = (sem H (valOf σ) op).1 ∧
+     (∀ w, (sem H (valOf σ) op).2 = some w → ∃ r, recvOf op = some r ∧ r < σ.nObj ∧ valOf (step H σ op).1 r = w) ∧
+     ((sem H (valOf σ) op).2 = none → recvOf op = none ∨ (step H σ op).1 = σ)) :=
+  ⟨fun h => ⟨h.out, h.recv, h.same⟩, fun h => ⟨h.1, h.2.1, h.2.2⟩⟩
+
+theorem ref_newBits {H σ} (bs : Bits) : Refines H σ (.newBits bs) := by
+  refine ⟨?_, by simp [sem], fun _ => .inl rfl⟩
+  simp [step, sem, outVal, valOf, State.bitsOf]
+
+theorem ref_newRefs {H σ} (h : Inv H σ) (cs : List Nat) (hid : ∀ i ∈ cs, i < σ.nObj) : Refines H σ (.newRefs cs) := by
+  refine ⟨?_, by simp [sem], fun _ => .inl rfl⟩
+  simp only [step, sem]
+  rw [all_isCell hid]
+  split
+  · rename_i hv
+    have hc := allCells_iff.mp hv
+    rw [trees_vals h hc]
+    have : ∀ o', vals ((σ.allocR cs).push o') cs = vals σ cs := by
+      intro o'; apply vals_congr; intro j hj; have := hid j hj; have e : j ≠ σ.nObj := by omega
+      simp [e]
+    simp [outVal, valOf, State.refsOf, ObjRec.blank, this]
+  · rfl
+
+theorem valOf_push_cell {H σ} (h : Inv H σ) (c : ObjRec) (hr : c.refsId < σ.nRef) (ht : c.tag = .cell) (ho : c.off = 0) :
+    valOf (σ.push c) σ.nObj = .cell (.mk c.kind (σ.bitBuf c.bitsId) (vals σ (σ.refBuf c.refsId))) := by
+  have : vals (σ.push c) (σ.refBuf c.refsId) = vals σ (σ.refBuf c.refsId) :=
+    vals_push c (fun j hj => (h.wf.refsCells _ hr j hj).1)
+  simp [valOf, State.bitsOf, State.refsOf, ht, ho, this]
+
+theorem ref_cellCtor {H σ} (h : Inv H σ) (ub ur : Nat) (kind : Int) (h1 : ub < σ.nObj) (h2 : ur < σ.nObj) :
+    Refines H σ (.cellCtor ub ur kind) := by
+  refine ⟨?_, by simp [sem], fun _ => .inl rfl⟩
+  simp only [step, sem]
+  cases t1 : (σ.obj ub).tag <;> cases t2 : (σ.obj ur).tag <;>
+    simp only [State.has, h1, h2, t1, t2, valOf, decide_true, decide_false, Bool.and_true, Bool.and_false, Bool.false_and,
+      Bool.true_and, if_true, if_false, outVal, Bool.false_eq_true, reduceCtorEq] <;> try rfl
+  -- ub is an array, ur a list
+  have o := h.wf.off0 ur h2 (by simp [t2])
+  have hl : CellsAt σ (σ.refBuf (σ.obj ur).refsId) := cellsAt_refBuf h h2 (by simp [t2, Tag.hasRefs])
+  have e : σ.refsOf ur = σ.refBuf (σ.obj ur).refsId := by simp [State.refsOf, o]
+  rw [e, State.bitsOf, mkCellV_eq h (bI := (σ.obj ub).bitsId) (rI := (σ.obj ur).refsId) hl]
+  cases ec : mkCellRec H σ (σ.obj ub).bitsId (σ.obj ur).refsId kind (σ.bitBuf (σ.obj ub).bitsId) (σ.refBuf (σ.obj ur).refsId) with
+  | none => rfl
+  | some c =>
+    obtain ⟨e1, e2, e3, e4, e5, e6, e7⟩ := mkCellRec_some h.coh hl ec
+    have hr : c.refsId < σ.nRef := by rw [e3]; exact h.wf.idR ur h2 (by simp [t2, Tag.hasRefs])
+    show OutVal.val (valOf (σ.push c) σ.nObj) = _
+    rw [valOf_push_cell h c hr e1 e4, e2, e3, e5]
+
+theorem valOf_slice {σ : State} {i : Nat} (ht : (σ.obj i).tag = .slice) :
+    valOf σ i = .slice (σ.obj i).kind (σ.bitsOf i) (vals σ (σ.refsOf i)) := by simp [valOf, ht]
+theorem valOf_builder {σ : State} {i : Nat} (ht : (σ.obj i).tag = .builder) :
+    valOf σ i = .builder (σ.bitsOf i) (vals σ (σ.refsOf i)) := by simp [valOf, ht]
+theorem valOf_ubits {σ : State} {i : Nat} (ht : (σ.obj i).tag = .ubits) : valOf σ i = .bits (σ.bitsOf i) := by simp [valOf, ht]
+theorem valOf_cell' {σ : State} {i : Nat} (ht : (σ.obj i).tag = .cell) :
+    valOf σ i = .cell (.mk (σ.obj i).kind (σ.bitsOf i) (vals σ (σ.refsOf i))) := by simp [valOf, ht]
+
+theorem ref_cellFresh {H σ} (h : Inv H σ) (bs : Bits) (cs : List Nat) (kind : Int) (hid : ∀ i ∈ cs, i < σ.nObj) :
+    Refines H σ (.cellFresh bs cs kind) := by
+  refine ⟨?_, by simp [sem], fun _ => .inl rfl⟩
+  simp only [step, sem]
+  rw [all_isCell hid]
+  cases hv : allCells σ cs with
+  | false => rfl
+  | true =>
+    have hc := allCells_iff.mp hv
+    simp only [if_true]
+    rw [trees_vals h hc, mkCellV_eq h (bI := σ.nBit) (rI := σ.nRef) hc]
+    cases ec : mkCellRec H σ σ.nBit σ.nRef kind bs cs with
+    | none => rfl
+    | some c =>
+      obtain ⟨e1, _, _, e4, e5, _, _⟩ := mkCellRec_some h.coh hc ec
+      show OutVal.val (valOf (freshObj σ c bs cs).1 σ.nObj) = _
+      rw [valOf_fresh c bs cs hc, e1, e4, e5]; rfl
+
+theorem ref_sliceFresh {H σ} (h : Inv H σ) (bs : Bits) (cs : List Nat) (kind : Int) (hid : ∀ i ∈ cs, i < σ.nObj) :
+    Refines H σ (.sliceFresh bs cs kind) := by
+  refine ⟨?_, by simp [sem], fun _ => .inl rfl⟩
+  simp only [step, sem]
+  rw [all_isCell hid]
+  cases hv : allCells σ cs with
+  | false => rfl
+  | true =>
+    have hc := allCells_iff.mp hv
+    simp only [if_true]
+    rw [trees_vals h hc]
+    show OutVal.val (valOf (freshObj σ _ bs cs).1 σ.nObj) = _
+    rw [valOf_fresh _ bs cs hc]; rfl
+
+theorem ref_builderNew {H σ} : Refines H σ .builderNew := by
+  refine ⟨?_, by simp [sem], fun _ => .inl rfl⟩
+  simp only [step, sem]
+  show OutVal.val (valOf (freshObj σ _ [] []).1 σ.nObj) = _
+  rw [valOf_fresh _ [] [] (by intro j hj; cases hj)]; rfl
+
+theorem ref_derive {H σ} (h : Inv H σ) (src : Nat) (dst : Kind) (hi : src < σ.nObj) : Refines H σ (.derive src dst) := by
+  refine ⟨?_, by simp [sem], fun _ => .inl rfl⟩
+  simp only [step, sem]
+  rw [content_valOf h hi]
+  cases hv : (σ.has src .cell || σ.has src .slice || σ.has src .builder) with
+  | false => rfl
+  | true =>
+    obtain ⟨_, hr, _⟩ := src_hasRefs hv
+    have hl : CellsAt σ (σ.refsOf src) := cellsAt_refsOf h hi hr
+    simp only [if_true]
+    cases dst with
+    | cell =>
+      simp only
+      rw [mkCellV_eq h (bI := σ.nBit) (rI := σ.nRef) hl]
+      cases ec : mkCellRec H σ σ.nBit σ.nRef (σ.obj src).kind (σ.bitsOf src) (σ.refsOf src) with
+      | none => rfl
+      | some c =>
+        obtain ⟨e1, _, _, e4, e5, _, _⟩ := mkCellRec_some h.coh hl ec
+        show OutVal.val (valOf (freshObj σ c _ _).1 σ.nObj) = _
+        rw [valOf_fresh c _ _ hl, e1, e4, e5]; rfl
+    | slice =>
+      simp only
+      show OutVal.val (valOf (freshObj σ _ _ _).1 σ.nObj) = _
+      rw [valOf_fresh _ _ _ hl]; rfl
+    | builder =>
+      simp only
+      rw [isBuilder_valOf σ hi]
+      have : (vals σ (σ.refsOf src)).length = (σ.refsOf src).length := by simp [vals]
+      rw [this]
+      cases hc : (σ.has src Tag.builder || (σ.obj src).kind != -1 || decide ((σ.refsOf src).length > 4) ||
+          decide ((σ.bitsOf src).length > 1023)) with
+      | true => rfl
+      | false =>
+        simp only [Bool.false_eq_true, if_false]
+        show OutVal.val (valOf (freshObj σ _ _ _).1 σ.nObj) = _
+        rw [valOf_fresh _ _ _ hl]; rfl
+
+theorem not_slice_sem {σ : State} {s : Nat} (ht : (σ.obj s).tag ≠ .slice) :
+    (∀ k b r, valOf σ s ≠ .slice k b r) := by
+  intro k b r; unfold valOf; cases e : (σ.obj s).tag <;> simp_all
+
+theorem not_builder_sem {σ : State} {s : Nat} (ht : (σ.obj s).tag ≠ .builder) :
+    (∀ b r, valOf σ s ≠ .builder b r) := by
+  intro b r; unfold valOf; cases e : (σ.obj s).tag <;> simp_all
+
+theorem ref_dropBits {H σ} (h : Inv H σ) (s n : Nat) (ret : Bool) (hi : s < σ.nObj) : Refines H σ (.dropBits s n ret) := by
+  by_cases ht : (σ.obj s).tag = .slice
+  · have hb := h.wf.idB s hi (by simp [ht, Tag.hasBits])
+    have hne : (σ.obj s).bitsId ≠ σ.nBit := by omega
+    have hs : s ≠ σ.nObj := by omega
+    have hhas : σ.has s .slice = true := has_iff.mpr ⟨hi, ht⟩
+    by_cases hn : n > (σ.bitsOf s).length
+    · refine ⟨?_, ?_, fun _ => .inr ?_⟩ <;> simp [step, sem, valOf_slice ht, hhas, hn, outVal]
+    · have hsem : sem H (valOf σ) (.dropBits s n ret) =
+          (if ret then .val (.bits ((σ.bitsOf s).take n)) else .bits ((σ.bitsOf s).take n),
+            some (.slice (σ.obj s).kind ((σ.bitsOf s).drop n) (vals σ (σ.refsOf s)))) := by
+        simp only [sem, valOf_slice ht]; rw [if_neg hn]
+      cases ret with
+      | false =>
+        have hstep : step H σ (.dropBits s n false) =
+            (σ.setB (σ.obj s).bitsId ((σ.bitsOf s).drop n), .bits ((σ.bitsOf s).take n)) := by
+          simp only [step, hhas, if_true]; rw [if_neg hn]; rfl
+        rw [Refines_iff, hstep, hsem]
+        refine ⟨rfl, ?_, by simp⟩
+        intro w hw; cases hw
+        refine ⟨s, rfl, hi, ?_⟩
+        simp [valOf, ht, State.bitsOf, State.refsOf, vals]
+      | true =>
+        have hstep : step H σ (.dropBits s n true) =
+            (((σ.setB (σ.obj s).bitsId ((σ.bitsOf s).drop n)).allocB ((σ.bitsOf s).take n)).push
+              { ObjRec.blank with tag := .ubits, bitsId := σ.nBit }, .obj σ.nObj) := by
+          simp only [step, hhas, if_true]; rw [if_neg hn]; rfl
+        rw [Refines_iff, hstep, hsem]
+        refine ⟨?_, ?_, by simp⟩
+        · simp [outVal, valOf, State.bitsOf]
+        · intro w hw; cases hw
+          refine ⟨s, rfl, hi, ?_⟩
+          have hv : ∀ (σ2 : State) o', σ2.obj = σ.obj → σ2.nObj = σ.nObj → vals (σ2.push o')
+              (List.drop (σ.obj s).off (σ.refBuf (σ.obj s).refsId)) = vals σ (List.drop (σ.obj s).off (σ.refBuf (σ.obj s).refsId)) := by
+            intro σ2 o' e1 e2
+            rw [vals_push (σ := σ2) o' (fun j hj => by rw [e2]; exact (cellsAt_refsOf h hi (by simp [ht, Tag.hasRefs]) j hj).1)]
+            unfold vals; rw [e1]
+          simp [valOf, ht, State.bitsOf, State.refsOf, hs, hne]
+          apply hv <;> rfl
+  · have hhas : σ.has s .slice = false := by simp [State.has, ht]
+    have := not_slice_sem ht
+    refine ⟨?_, ?_, fun _ => .inr ?_⟩ <;> simp only [step, sem, hhas] <;> split <;> simp_all [outVal]
+
+theorem ref_peekBits {H σ} (s n : Nat) (hi : s < σ.nObj) : Refines H σ (.peekBits s n) := by
+  refine ⟨?_, by simp [sem], fun _ => .inl rfl⟩
+  by_cases ht : (σ.obj s).tag = .slice
+  · have hhas : σ.has s .slice = true := has_iff.mpr ⟨hi, ht⟩
+    simp only [step, sem, valOf_slice ht, hhas, if_true, outVal]
+    simp [valOf, State.bitsOf]
+  · have hhas : σ.has s .slice = false := by simp [State.has, ht]
+    have := not_slice_sem ht
+    simp only [step, sem, hhas]; split <;> simp_all [outVal]
+
+theorem ref_loadRef {H σ} (h : Inv H σ) (s : Nat) (hi : s < σ.nObj) : Refines H σ (.loadRef s) := by
+  by_cases ht : (σ.obj s).tag = .slice
+  · have hhas : σ.has s .slice = true := has_iff.mpr ⟨hi, ht⟩
+    have hl := cellsAt_refsOf h hi (by simp [ht, Tag.hasRefs])
+    cases hr : σ.refsOf s with
+    | nil =>
+      have hstep : step H σ (.loadRef s) = (σ, .err) := by simp only [step, hhas, if_true, hr]
+      have hsem : sem H (valOf σ) (.loadRef s) = (.err, none) := by simp only [sem, valOf_slice ht, hr, vals, List.map_nil]
+      rw [Refines_iff, hstep, hsem]; exact ⟨rfl, by simp, fun _ => .inr rfl⟩
+    | cons c rest =>
+      have hstep : step H σ (.loadRef s) = (σ.setObj s { σ.obj s with off := (σ.obj s).off + 1 }, .obj c) := by
+        simp only [step, hhas, if_true, hr]
+      have hsem : sem H (valOf σ) (.loadRef s) =
+          (.val (.cell (σ.obj c).val), some (.slice (σ.obj s).kind (σ.bitsOf s) (vals σ rest))) := by
+        simp only [sem, valOf_slice ht, hr, vals, List.map_cons]
+      have hc := hl c (by rw [hr]; simp)
+      have hcs : c ≠ s := by intro e; rw [e] at hc; rw [hc.2] at ht; cases ht
+      have hrest : List.drop ((σ.obj s).off + 1) (σ.refBuf (σ.obj s).refsId) = rest := by
+        have : (List.drop (σ.obj s).off (σ.refBuf (σ.obj s).refsId)).tail = rest := by
+          have := hr; simp only [State.refsOf] at this; rw [this]; rfl
+        rw [← this, List.tail_drop]
+      have f := frame_setOff σ s hi (slice_owner ht) ((σ.obj s).off + 1)
+      rw [Refines_iff, hstep, hsem]
+      refine ⟨?_, ?_, by simp⟩
+      · simp only [outVal]
+        rw [valOf_frame h f c hc.1 (by intro e; cases e; exact hcs rfl), (valOf_cell h hc.1 hc.2).1]
+      · intro w hw; cases hw
+        refine ⟨s, rfl, hi, ?_⟩
+        have hv : ∀ o' : ObjRec, o'.val = (σ.obj s).val → vals (σ.setObj s o') rest = vals σ rest := by
+          intro o' e; apply vals_congr; intro j _
+          by_cases ej : j = s <;> simp [ej, e]
+        simp [valOf, ht, State.bitsOf, State.refsOf, hrest]
+        exact hv _ rfl
+  · have hhas : σ.has s .slice = false := by simp [State.has, ht]
+    have := not_slice_sem ht
+    refine ⟨?_, ?_, fun _ => .inr ?_⟩ <;> simp only [step, sem, hhas] <;> split <;> simp_all [outVal]
+
+theorem ref_storeBits {H σ} (b : Nat) (bs : Bits) (hi : b < σ.nObj) : Refines H σ (.storeBits b bs) := by
+  by_cases ht : (σ.obj b).tag = .builder
+  · have hhas : σ.has b .builder = true := has_iff.mpr ⟨hi, ht⟩
+    by_cases hn : (σ.bitsOf b).length + bs.length > 1023
+    · have hstep : step H σ (.storeBits b bs) = (σ, .err) := by simp only [step, hhas, if_true]; rw [if_pos hn]
+      have hsem : sem H (valOf σ) (.storeBits b bs) = (.err, none) := by simp only [sem, valOf_builder ht]; rw [if_pos hn]
+      rw [Refines_iff, hstep, hsem]; exact ⟨rfl, by simp, fun _ => .inr rfl⟩
+    · have hstep : step H σ (.storeBits b bs) = (σ.setB (σ.obj b).bitsId (σ.bitsOf b ++ bs), .unit) := by
+        simp only [step, hhas, if_true]; rw [if_neg hn]
+      have hsem : sem H (valOf σ) (.storeBits b bs) = (.unit, some (.builder (σ.bitsOf b ++ bs) (vals σ (σ.refsOf b)))) := by
+        simp only [sem, valOf_builder ht]; rw [if_neg hn]
+      rw [Refines_iff, hstep, hsem]
+      refine ⟨rfl, ?_, by simp⟩
+      intro w hw; cases hw
+      exact ⟨b, rfl, hi, by simp [valOf, ht, State.bitsOf, State.refsOf, vals]⟩
+  · have hhas : σ.has b .builder = false := by simp [State.has, ht]
+    have := not_builder_sem ht
+    refine ⟨?_, ?_, fun _ => .inr ?_⟩ <;> simp only [step, sem, hhas] <;> split <;> simp_all [outVal]
+
+theorem ref_storeRef {H σ} (h : Inv H σ) (b c : Nat) (hi : b < σ.nObj) (hc : c < σ.nObj) : Refines H σ (.storeRef b c) := by
+  by_cases ht : (σ.obj b).tag = .builder
+  · by_cases hcell : (σ.obj c).tag = .cell
+    · have hhas : (σ.has b .builder && σ.has c .cell) = true := by simp [State.has, hi, hc, ht, hcell]
+      have vc := (valOf_cell h hc hcell).1
+      have hlen : (vals σ (σ.refsOf b)).length = (σ.refsOf b).length := by simp [vals]
+      by_cases hn : (σ.refsOf b).length ≥ 4
+      · have hstep : step H σ (.storeRef b c) = (σ, .err) := by simp only [step, hhas, if_true]; rw [if_pos hn]
+        have hsem : sem H (valOf σ) (.storeRef b c) = (.err, none) := by
+          simp only [sem, valOf_builder ht, vc, hlen]; rw [if_pos hn]
+        rw [Refines_iff, hstep, hsem]; exact ⟨rfl, by simp, fun _ => .inr rfl⟩
+      · have hstep : step H σ (.storeRef b c) = (σ.setR (σ.obj b).refsId (σ.refsOf b ++ [c]), .unit) := by
+          simp only [step, hhas, if_true]; rw [if_neg hn]
+        have hsem : sem H (valOf σ) (.storeRef b c) =
+            (.unit, some (.builder (σ.bitsOf b) (vals σ (σ.refsOf b) ++ [(σ.obj c).val]))) := by
+          simp only [sem, valOf_builder ht, vc, hlen]; rw [if_neg hn]
+        have o := h.wf.off0 b hi (by simp [ht])
+        rw [Refines_iff, hstep, hsem]
+        refine ⟨rfl, ?_, by simp⟩
+        intro w hw; cases hw
+        exact ⟨b, rfl, hi, by simp [valOf, ht, State.bitsOf, State.refsOf, vals, o]⟩
+    · have hhas : (σ.has b .builder && σ.has c .cell) = false := by simp [State.has, hcell]
+      have : ∀ t, valOf σ c ≠ .cell t := by
+        intro t; unfold valOf; cases e : (σ.obj c).tag <;> simp_all
+      refine ⟨?_, ?_, fun _ => .inr ?_⟩ <;> simp only [step, sem, hhas, valOf_builder ht] <;> split <;> simp_all [outVal]
+  · have hhas : (σ.has b .builder && σ.has c .cell) = false := by simp [State.has, ht]
+    have := not_builder_sem ht
+    refine ⟨?_, ?_, fun _ => .inr ?_⟩ <;> simp only [step, sem, hhas] <;> split <;> simp_all [outVal]
+
+theorem ref_observe {H σ} (h : Inv H σ) (c : Nat) (hc : c < σ.nObj) : Refines H σ (.observe c) := by
+  refine ⟨?_, by simp [sem], fun _ => .inl rfl⟩
+  by_cases hcell : (σ.obj c).tag = .cell
+  · have hhas : σ.has c .cell = true := has_iff.mpr ⟨hc, hcell⟩
+    simp only [step, sem, hhas, if_true, (valOf_cell h hc hcell).1, h.coh.cohInfo c hc hcell, outVal]
+  · have hhas : σ.has c .cell = false := by simp [State.has, hcell]
+    have : ∀ t, valOf σ c ≠ .cell t := by
+      intro t; unfold valOf; cases e : (σ.obj c).tag <;> simp_all
+    simp only [step, sem, hhas]; split <;> simp_all [outVal]
+
 end TonVerif.Proofs.Heap
